@@ -19,7 +19,7 @@ MOD = 'checks.c01'
 SPEC = ('TR_MetricLearn', 'TR_MetricLearn.cfg')
 PID = 'C01'
 
-KINDS = ['train', 'dup_xy', 'dup_yz', 'all_same', 'collinear', 'tiny', 'huge', 'far', 'random', 'mixed_scale', 'nullspace',
+KINDS = ['train', 'dup_xy', 'dup_yz', 'all_same', 'collinear', 'tiny', 'huge', 'far', 'random', 'mixed_scale', 'nullspace', 'huge_f32', 'tiny_f32',
          'nullspace']
 BIG = 2.0 ** 332        # ~ 1e100, an exact scaling
 
@@ -51,6 +51,10 @@ def make_triple(rng, X, kind, L=None):
     x, y, z = x / BIG, y / BIG, z / BIG
   elif kind == 'huge':
     x, y, z = x * BIG, y * BIG, z * BIG
+  elif kind in ('huge_f32', 'tiny_f32'):
+    # single-precision query points of large / small magnitude (exactly representable: few-bit grid values times 2^+-70)
+    f = 2.0 ** 70 if kind == 'huge_f32' else 2.0 ** -70
+    x, y, z = (np.round(v * 64.0) / 64.0 * f for v in (x, y, z))
   elif kind == 'far':
     off = np.round(rng.normal(size=d) * 2.0 ** 20)
     x, y, z = x + off, y + off * 3, z - off
@@ -95,7 +99,7 @@ def gen_trace(recipe):
   kinds = recipe['kinds']
   for kind in kinds:
     x, y, z = make_triple(rng, tr['X'], kind, est.components_)
-    e = obs.triple_event(est, x, y, z, metric)
+    e = obs.triple_event(est, x, y, z, metric, dtype=np.float32 if kind.endswith('_f32') else None)
     e['kind'] = kind
     events.append(e)
   return {'est': name, 'opts': {k: (v if isinstance(v, (int, float, str, bool, type(None))) else 'array')
